@@ -120,6 +120,7 @@ int main(int argc, char** argv) {
     if (const char* rp = rep::arg_value(argc, argv, "--replay")) return replay_file(rp, set, tier);
     SCN = scenarios_for(set, tier);
     if (only) { std::vector<Scenario> f; for (auto& s : SCN) if (s.name == only) f.push_back(s); SCN = f; }
+    if (rep::arg_flag(argc, argv, "--list")) { for (auto& s : SCN) printf("%s %s mon=%x D=%d\n", set.c_str(), s.name.c_str(), unsigned(s.monitors), s.D); return 0; }
     if (SCN.empty()) { fprintf(stderr, "simnet: no scenarios (or too many) for set %s\n", set.c_str()); return 2; }
     for (auto& s : SCN) if (s.D > dcap) s.D = dcap;
     SH = (Shared*)mmap(nullptr, sizeof(Shared), PROT_READ | PROT_WRITE, MAP_SHARED | MAP_ANONYMOUS, -1, 0);
